@@ -143,7 +143,18 @@ func (w *World) Exec(op hx.Zs) []hx.Zs {
 		p, ctr, ack, fn, v := r.n(), r.n(), r.b(), r.n(), r.n()
 		src, dst := r.faddr(), r.faddr()
 		h := header(src.model(), dst.model(), ctr, nil, ack, model.CmdClassifierTypeWrite)
-		w.inject(p, model.DatagramType{Header: h, Payload: model.PayloadType{Cmd: []model.CmdType{CmdFor(fn, v)}}})
+		cmd := CmdFor(fn, v)
+		// The optional `function` element of a cmd is not what the stack dispatches on (the function is
+		// the one of the data element: cmd.Data()); the model ignores it.  Some writes carry it, naming
+		// the data's own function or - every fourth counter - another function (the sibling function of
+		// the same feature type where there is one), so that a gate trusting the element is exposed.
+		switch ctr % 4 {
+		case 1:
+			cmd.Function = util.Ptr(Function(fn))
+		case 2:
+			cmd.Function = util.Ptr(Function(map[int64]int64{1: 2, 2: 1, 3: 1, 4: 1}[fn]))
+		}
+		w.inject(p, model.DatagramType{Header: h, Payload: model.PayloadType{Cmd: []model.CmdType{cmd}}})
 	case 13: // Disconnect
 		p := r.n()
 		w.local.RemoveRemoteDeviceConnection(Ski(p))
